@@ -42,7 +42,8 @@ type ReqData struct {
 	Opt      *[]string
 	OptAttrs *map[string]string
 	// Extra selects what Req.Extra (type any) holds: 0 nil, 1 Sub, 2 *Sub, 3 []any{Sub, *Sub, string, int},
-	// 4 map[string]any{Sub, int, []string}, 5 []Sub — all made from ExtraSub.
+	// 4 map[string]any{Sub, int, []string}, 5 []Sub, 6 time.Time, 7 []any{time.Time, string, time.Time},
+	// 8 map[string]any{time.Time, int} — all made from ExtraSub.
 	Extra    int
 	ExtraSub SubData
 	// Nest is used by the kinds 5-8 only (kinds 3/4 use Inner).
@@ -367,7 +368,7 @@ func genReq(t *rapid.T, label string, kind int) ReqData {
 		m := genAttrs.Draw(t, label+".optAttrs")
 		r.OptAttrs = &m
 	}
-	if r.Extra = rapid.IntRange(0, 5).Draw(t, label+".extra"); r.Extra != 0 {
+	if r.Extra = rapid.IntRange(0, 8).Draw(t, label+".extra"); r.Extra != 0 {
 		r.ExtraSub = genSub(t, label+".extraSub")
 	}
 	r.Hidden = genShort.Draw(t, label+".hidden")
